@@ -11,7 +11,7 @@ Theorem C20_source_facts :
   set_conn_level_shape = true /\ module_sets_own_name = true /\ set_all_iterates_all_modules = true /\
   handle_logging_shape = true /\ reset_sets_all_off = true /\ remove_calls_reset = true /\ ident_calls_reset = true /\
   send_log_msg_shape = true /\ rollover_guard_max_days = true /\ rollover_lists_own_logs = true /\
-  rollover_slice_code = 1 /\ source_slice = SliceHead.
+  rollover_removes_old_earlier = true.
 Proof. repeat split; reflexivity. Qed.
 
 (* Routing, full strength and exact: after ANY history, the messages connection c gets for a record of module m
@@ -69,60 +69,61 @@ Proof.
   - intros s E A M. subst. apply unknown_module_no_effect; auto.
 Qed.
 
-(* Rotation, whatever the slice and the retention: a rollover creates nothing but the `current` link and the file of
-   the day, and never removes the `current` link. *)
-Theorem C20_rollover_frame : forall k prefix n d date,
-  (forall e, In e (do_rollover k prefix n d date) -> In e (open_file d (log_name prefix date))) /\
-  has_name cur_name (do_rollover k prefix n d date) = true.
-Proof. intros; apply rollover_frame. Qed.
+(* Rotation.  d ranges over every directory: any set of dated log files of the handler (earlier, same day, dated later), foreign
+   files, sub-directories, links; "earlier" = own log file (regular file named <root>-*.log) whose name is below the name of the
+   file being written; "newest" = greatest name (date order for zero padded dates). *)
 
-(* Foreign entries -- anything that is not a regular file named <root>-*.log: other files, sub-directories such as comlog,
-   links -- survive every rollover with every retention (was finding C20/rollover-removes-foreign, repaired by f977176). *)
-Theorem C20_foreign_entries_never_removed : forall prefix n d date e,
-  NoDup (map e_name d) ->
-  In e (open_file d (log_name prefix date)) -> own_log prefix e = false ->
-  In e (do_rollover source_slice prefix n d date).
-Proof. intros; apply rollover_keeps_foreign; assumption. Qed.
+(* whatever the retention: a rollover creates nothing but the `current` link and the file of the day, never removes the
+   `current` link, and never removes the file being written *)
+Theorem C20_rollover_frame : forall prefix n d date,
+  (forall e, In e (do_rollover prefix n d date) -> In e (open_file d (log_name prefix date))) /\
+  has_name cur_name (do_rollover prefix n d date) = true /\
+  has_name (log_name prefix date) (do_rollover prefix n d date) = true.
+Proof.
+  intros. destruct (rollover_frame prefix n d date) as [A B]. split; auto. split; auto. apply rollover_keeps_written.
+Qed.
+
+(* "only older files are removed", first half: whatever is not an own log file dated before the file being written stays --
+   foreign files, sub-directories such as comlog, links, own log files dated later, the file being written
+   (were findings C20/rollover-removes-foreign and C20/rollover-later-dated-file) *)
+Theorem C20_only_earlier_own_logs_removed : forall prefix n d date e,
+  NoDup (names d) ->
+  In e (open_file d (log_name prefix date)) ->
+  own_log prefix e = false \/ name_ltb (e_name e) (log_name prefix date) = false ->
+  In e (do_rollover prefix n d date).
+Proof. intros; apply rollover_keeps_others; assumption. Qed.
 
 (* retention 0: nothing is removed, the file of the day exists *)
-Theorem C20_retention_zero_keeps_all : forall k prefix d date,
-  do_rollover k prefix 0 d date = open_file d (log_name prefix date) /\
-  (forall e, In e d -> e_name e <> cur_name -> In e (do_rollover k prefix 0 d date)) /\
-  has_name (log_name prefix date) (do_rollover k prefix 0 d date) = true.
+Theorem C20_retention_zero_keeps_all : forall prefix d date,
+  do_rollover prefix 0 d date = open_file d (log_name prefix date) /\
+  (forall e, In e d -> e_name e <> cur_name -> In e (do_rollover prefix 0 d date)) /\
+  has_name (log_name prefix date) (do_rollover prefix 0 d date) = true.
 Proof. intros; apply rollover_zero. Qed.
 
-(* Retention N > 0, for the source as it is now and for EVERY directory (foreign files, sub-directories, links present):
-   "only older files are removed".  A name disappears iff it is in the head of the sorted listing of the handler's own log
-   files; min(N, number of own log files) of them stay; every removed entry is an own log file sorting below (older
-   than) every kept one.  (Was C20_retention_partial_repaired_slice, stated for the hypothetical repair and for
-   directories without sub-directories only; finding C20/rollover-removes-newest repaired by 8755e5f.) *)
-Theorem C20_retention_only_older_removed : forall prefix n d date,
-  let d1 := open_file d (log_name prefix date) in
-  let files := listing prefix d1 in
-  let removed := firstn (length files - S n) files in
-  let kept := skipn (length files - S n) files in
-  (forall nm, has_name nm (do_rollover source_slice prefix (S n) d date) =
-              has_name nm d1 && negb (has_name nm removed)) /\
-  length kept = Nat.min (S n) (length files) /\
+(* The retention clause of the property at full strength, no guard: with retention N = S n, for EVERY directory, the file
+   being written (C20_rollover_frame) and the N-1 = n newest earlier files (kept: min(n, number of earlier files) entries,
+   all still present) are kept, and only older files are removed: a name disappears iff it belongs to [removed], every
+   removed entry is an earlier own log file and sorts below every kept one.
+   (Was C20_retention_only_older_removed + C20_retention_keeps_newest_except_later_dated_file; the guard went away with
+   deef1e5.) *)
+Theorem C20_retention : forall prefix n d date,
+  let fn := log_name prefix date in
+  let d1 := open_file d fn in
+  let earl := earlier fn (listing prefix d1) in
+  let removed := firstn (length earl - n) earl in
+  let kept := skipn (length earl - n) earl in
+  (forall nm, has_name nm (do_rollover prefix (S n) d date) = has_name nm d1 && negb (has_name nm removed)) /\
+  length kept = Nat.min n (length earl) /\
+  (NoDup (names d) -> forall k, In k kept -> In k (do_rollover prefix (S n) d date)) /\
   (forall r k, In r removed -> In k kept -> name_leb (e_name r) (e_name k) = true) /\
-  (forall r, In r removed -> In r d1 /\ own_log prefix r = true).
-Proof. intros prefix n d date. change source_slice with SliceHead. apply head_retention. Qed.
-
-(* "the file being written and the N-1 newest earlier files are kept".  Full statement: for every directory.  Proved: the
-   N greatest own log files always stay (names being unique), and they are the file being written (the last of the
-   listing) and the N-1 files below it whenever no own log file is dated later than the file being written -- the
-   excluded class is exactly the open finding C20/rollover-later-dated-file (C20_refuted_later_dated_file).
-   (Was C20_retention_partial_repaired_slice_keeps + C20_written_file_is_last.) *)
-Theorem C20_retention_keeps_newest_except_later_dated_file : forall prefix n d date,
-  let d1 := open_file d (log_name prefix date) in
-  let files := listing prefix d1 in
-  NoDup (names d) ->
-  (forall e, In e (skipn (length files - S n) files) -> In e (do_rollover source_slice prefix (S n) d date)) /\
-  ((forall e, In e d -> e_name e = log_name prefix date -> e_file e = true) ->
-   (forall e, In e d1 -> own_log prefix e = true -> name_leb (e_name e) (log_name prefix date) = true) ->
-   has_name (log_name prefix date) (do_rollover source_slice prefix (S n) d date) = true /\
-   e_name (last files cur_entry) = log_name prefix date).
-Proof. intros prefix n d date. change source_slice with SliceHead. apply head_keeps. Qed.
+  (forall r, In r removed -> In r d1 /\ own_log prefix r = true /\ name_ltb (e_name r) fn = true).
+Proof.
+  intros prefix n d date fn d1 earl removed kept.
+  destruct (retention_earlier prefix n d date) as (V & L & O & K). fold fn d1 earl removed kept in V, L, O, K.
+  split; [|split; [|split; [|split]]]; auto.
+  - intros nm. unfold fn, d1. rewrite rollover_names. fold fn d1 earl. rewrite V. reflexivity.
+  - intros r Ir. apply (victims_spec prefix (S n) fn d1 r). fold earl. rewrite V. exact Ir.
+Qed.
 
 (* non-vacuity: a history with two connections in which every clause of the property is exercised *)
 Definition mA : name := [109; 48]%N.
@@ -135,14 +136,14 @@ Example C20_demo :
   [(0, mA, s_info); (1, mB, s_warning); (1, mA, s_error)].
 Proof. vm_compute. reflexivity. Qed.
 
-(* four dated files, a sub-directory, a foreign file and a link carrying a log name; retention 2 *)
+(* four earlier files, a later-dated file, a sub-directory, a foreign file and a link carrying a log name; retention 2 *)
 Example C20_demo_rotation :
-  map e_name (sort (do_rollover source_slice frappy 2
-     [dated 1; dated 2; {| e_name := [99; 111; 109]%N; e_file := false |}; dated 3; dated 4;
+  map e_name (sort (do_rollover frappy 2
+     [dated 1; dated 2; {| e_name := [99; 111; 109]%N; e_file := false |}; dated 3; dated 4; dated 9;
       {| e_name := [122; 122]%N; e_file := true |}; {| e_name := log_name frappy (date_n 0); e_file := false |}]
      (date_n 5))) =
   [[99; 111; 109]%N; cur_name; log_name frappy (date_n 0); log_name frappy (date_n 4); log_name frappy (date_n 5);
-   [122; 122]%N].
+   log_name frappy (date_n 9); [122; 122]%N].
 Proof. vm_compute. reflexivity. Qed.
 
 Print Assumptions C20_source_facts.
@@ -153,9 +154,7 @@ Print Assumptions C20_stop_ways.
 Print Assumptions C20_others_unaffected.
 Print Assumptions C20_rejected_request_no_effect.
 Print Assumptions C20_rollover_frame.
-Print Assumptions C20_foreign_entries_never_removed.
+Print Assumptions C20_only_earlier_own_logs_removed.
 Print Assumptions C20_retention_zero_keeps_all.
-Print Assumptions C20_retention_only_older_removed.
-Print Assumptions C20_retention_keeps_newest_except_later_dated_file.
+Print Assumptions C20_retention.
 Print Assumptions C20_refuted_unnamed_level.
-Print Assumptions C20_refuted_later_dated_file.
